@@ -157,6 +157,8 @@ static void run_grammar(const char *text, size_t n)
 static const char *KINDS[] = {
     "", "# c", "; c = 1", "#k=1", "[s]", "[ t ]", "k=v", "k = w", "q = \"v;#\"", "q = 'v #'", "k = v ; c", "k = v=w", "k = \"\"", "q = {a b  c}",
     "k = 12", "q = -3.5e2", "k = TRUE", "q = false", "k = 1", "  k  =  v2  ", "q = v # c", "k = {x}", "q = 0",
+    "k = \"\" ; c", "q = '' # c",                      /* empty quotes followed by a blank and a comment */
+    "q = {100 20 3}", "k = {ab c defg h}",             /* list items that get shorter / longer from one to the next */
     "[ ]", "[]",        /* blank section names: behaviour not documented -> robustness only */
 };
 #define NK ((int)(sizeof KINDS / sizeof KINDS[0]))
